@@ -92,9 +92,13 @@ theorem retry_gauge_step (s : Retry.St) (a : Retry.Act) (s' : Retry.St) (hi : s.
     split at h
     · split at h
       · split at h
+        · cases h; exact hi
+        · split at h
+          · cases h
+          · cases h; exact hi
+      · split at h
         · cases h
         · cases h; exact hi
-      · cases h; exact hi
     · cases h
   | cancelEnd f =>
     simp only [Retry.step] at h
